@@ -17,8 +17,8 @@ fn space(tier: Tier) -> &'static Space {
     static Q: OnceLock<Space> = OnceLock::new();
     static T: OnceLock<Space> = OnceLock::new();
     match tier {
-        Tier::Quick => Q.get_or_init(|| Space::new(&[("FT", 2), ("FL", 3)])),
-        Tier::Thorough => T.get_or_init(|| Space::new(&[("FT", 3), ("FL", 5)])),
+        Tier::Quick => Q.get_or_init(|| Space::new(&[("FT", 2), ("FL", 3), ("FR", 0)])),
+        Tier::Thorough => T.get_or_init(|| Space::new(&[("FT", 3), ("FL", 5), ("FR", 0)])),
     }
 }
 fn samples(tier: Tier) -> usize {
@@ -129,7 +129,7 @@ impl Prop for C11 {
     fn describe(&self, tier: Tier) -> Descr {
         Descr {
             rule: format!(
-                "every task program of family {}: each task is first scheduled from global scope at a time in {{1,2,3,2.5}}, or by the previous task (chaining, delay in the same set), or by dsp itself at sample 2 (same delays), and reschedules itself with period in {{none,1,2,3}}; all combinations = all insertion orders, equal times and truncated times; each task increments its own counter cell and records `now`; family FL: a function binds two closure values (counting in captured locals) and issues every sequence of requests `tick_j@t` over 2 closures x 4 times - so the same closure value is also requested several times for one sample - and returns a reader closure; run for {} samples on VM and WASM with the scheduler plugin and compared at every sample with a sorted-multiset reference (task scheduled for w runs once, before dsp of sample floor(w)). states = distinct (sample, outputs); non-trivial = some task runs.",
+                "every task program of family {}: each task is first scheduled from global scope at a time in {{1,2,3,2.5}}, or by the previous task (chaining, delay in the same set), or by dsp itself at sample 2 (same delays), and reschedules itself with period in {{none,1,2,3}}; all combinations = all insertion orders, equal times and truncated times; each task increments its own counter cell and records `now`; family FL: a function binds two closure values (counting in captured locals) and issues every sequence of requests `tick_j@t` over 2 closures x 4 times - so the same closure value is also requested several times for one sample - and returns a reader closure; family FR: bursts of 1, 2, 60, 127, 128, 129 and 300 requests issued in one go (by global code before the first sample, or by a task), one task due at each following sample; run for {} samples on VM and WASM with the scheduler plugin and compared at every sample with a sorted-multiset reference (task scheduled for w runs once, before dsp of sample floor(w)). states = distinct (sample, outputs); non-trivial = some task runs.",
                 space(tier).describe(),
                 samples(tier)
             ),
